@@ -41,6 +41,45 @@ Proof.
   - destruct (Nat.ltb_spec ax n), (Nat.ltb_spec ax (S n)); try lia; ring.
 Qed.
 
+(* ---------- generate_grid, any element type *)
+Lemma in_concat_repeat {A} (x : A) l k : In x (concat (repeat l k)) -> In x l.
+Proof. induction k; simpl; [tauto|]. intros H. apply in_app_or in H. tauto. Qed.
+Lemma concat_repeat_nil {A} k : concat (repeat (@nil A) k) = [].
+Proof. induction k; simpl; auto. Qed.
+
+Lemma grid_entries {A} (axes : list (list A)) : forall d,
+  Forall (fun v => In v (nth d axes [])) (nth d (generate_grid axes) []).
+Proof.
+  induction axes as [|a rest IH]; intros d.
+  - destruct d; constructor.
+  - destruct d as [|d]; simpl.
+    + apply Forall_forall. intros v Hv. apply in_flat_map in Hv. destruct Hv as [w [Hw Hv]].
+      apply repeat_spec in Hv. now subst.
+    + specialize (IH d). apply Forall_forall. intros v Hv.
+      rewrite nth_indep with (d' := (fun row => concat (repeat row (length a))) []) in Hv.
+      2:{ destruct (Nat.lt_ge_cases d (length (map (fun row => concat (repeat row (length a))) (generate_grid rest)))); auto.
+          rewrite nth_overflow in Hv by auto. destruct Hv. }
+      rewrite (map_nth (fun row => concat (repeat row (length a)))) in Hv.
+      apply in_concat_repeat in Hv. rewrite Forall_forall in IH. auto.
+Qed.
+
+(* shape of the grid: one row per axis, grid_size columns (any element type) *)
+Lemma concat_repeat_length {A} (l : list A) k : length (concat (repeat l k)) = (k * length l)%nat.
+Proof. induction k; simpl; auto. rewrite app_length, IHk. lia. Qed.
+Lemma flat_map_repeat_length {A} (a : list A) k : length (flat_map (fun v => repeat v k) a) = (length a * k)%nat.
+Proof. induction a; simpl; auto. rewrite app_length, repeat_length, IHa. lia. Qed.
+Lemma grid_shape {A} (axes : list (list A)) :
+  length (generate_grid axes) = length axes /\
+  Forall (fun row => length row = grid_size axes) (generate_grid axes).
+Proof.
+  induction axes as [|a rest [IH1 IH2]]; simpl. { split; constructor. }
+  split. { now rewrite map_length, IH1. }
+  constructor. { apply flat_map_repeat_length. }
+  apply Forall_forall. intros row Hin. apply in_map_iff in Hin. destruct Hin as [r [<- Hr]].
+  rewrite concat_repeat_length. rewrite Forall_forall in IH2. now rewrite (IH2 r Hr).
+Qed.
+
+
 Section Periodic.
   Variable ora : nat -> list R -> R.
   Notation RO := (Rops ora).
@@ -131,43 +170,6 @@ Section Periodic.
   Qed.
 
   (* ---------- the generator's grid: every entry of row d is an integer multiple of delta_k[d] *)
-  Lemma in_concat_repeat {A} (x : A) l k : In x (concat (repeat l k)) -> In x l.
-  Proof. induction k; simpl; [tauto|]. intros H. apply in_app_or in H. tauto. Qed.
-  Lemma concat_repeat_nil {A} k : concat (repeat (@nil A) k) = [].
-  Proof. induction k; simpl; auto. Qed.
-
-  Lemma grid_entries {A} (axes : list (list A)) : forall d,
-    Forall (fun v => In v (nth d axes [])) (nth d (generate_grid axes) []).
-  Proof.
-    induction axes as [|a rest IH]; intros d.
-    - destruct d; constructor.
-    - destruct d as [|d]; simpl.
-      + apply Forall_forall. intros v Hv. apply in_flat_map in Hv. destruct Hv as [w [Hw Hv]].
-        apply repeat_spec in Hv. now subst.
-      + specialize (IH d). apply Forall_forall. intros v Hv.
-        rewrite nth_indep with (d' := (fun row => concat (repeat row (length a))) []) in Hv.
-        2:{ destruct (Nat.lt_ge_cases d (length (map (fun row => concat (repeat row (length a))) (generate_grid rest)))); auto.
-            rewrite nth_overflow in Hv by auto. destruct Hv. }
-        rewrite (map_nth (fun row => concat (repeat row (length a)))) in Hv.
-        apply in_concat_repeat in Hv. rewrite Forall_forall in IH. auto.
-  Qed.
-
-  (* shape of the grid: one row per axis, grid_size columns (any element type) *)
-  Lemma concat_repeat_length {A} (l : list A) k : length (concat (repeat l k)) = (k * length l)%nat.
-  Proof. induction k; simpl; auto. rewrite app_length, IHk. lia. Qed.
-  Lemma flat_map_repeat_length {A} (a : list A) k : length (flat_map (fun v => repeat v k) a) = (length a * k)%nat.
-  Proof. induction a; simpl; auto. rewrite app_length, repeat_length, IHa. lia. Qed.
-  Lemma grid_shape {A} (axes : list (list A)) :
-    length (generate_grid axes) = length axes /\
-    Forall (fun row => length row = grid_size axes) (generate_grid axes).
-  Proof.
-    induction axes as [|a rest [IH1 IH2]]; simpl. { split; constructor. }
-    split. { now rewrite map_length, IH1. }
-    constructor. { apply flat_map_repeat_length. }
-    apply Forall_forall. intros row Hin. apply in_map_iff in Hin. destruct Hin as [r [<- Hr]].
-    rewrite concat_repeat_length. rewrite Forall_forall in IH2. now rewrite (IH2 r Hr).
-  Qed.
-
   Lemma arange_entry n dk v : Z.even n = true -> In v (arange_modes RO n dk) -> exists m : Z, v = IZR m * dk.
   Proof.
     intros He Hin. unfold arange_modes in Hin. apply in_map_iff in Hin. destruct Hin as [i [<- _]].
